@@ -220,6 +220,9 @@ def check_case(spec, form, sel, placement, stats, enum=True, kwnames=KW, maxpos=
         full = (Par(first, PO if any(p.kind == PO for p in spec) else POK),) + spec
         if form == 'names' and sel[1] and sel[2] == 1:
             sel = [sel[0], [first] + [x for x in sel[1] if x != first], sel[2]]
+        # end= naming the instance parameter itself (every second such selection that names the method's first own parameter)
+        if form == 'end' and spec and sel[0] == spec[0].name and (len(spec) + len(sel[1])) % 2 == 0:
+            sel = [first, sel[1]]
     case = {'spec': list(map(list, spec)), 'form': form, 'sel': sel, 'placement': placement, 'first': first}
     desc = '%s%r on def f(%s) as %s' % (form, sel, universe.spec_text(full), placement)
     try:
